@@ -120,24 +120,24 @@ pub fn generic<S: Src, const N: usize, const SDES: bool>(s: &mut S) {
 }
 
 common::register! {
-    q_app = app::<_, 64> => 2,
-    q_bye = bye::<_, 64> => 2,
-    q_rr = rr::<_, 64> => 2,
-    q_sr = sr::<_, 64> => 2,
-    q_tfb = tfb::<_, 64> => 2,
-    q_pfb = pfb::<_, 64> => 2,
+    q_app = app::<_, 288> => 2,
+    q_bye = bye::<_, 288> => 2,
+    q_rr = rr::<_, 288> => 2,
+    q_sr = sr::<_, 288> => 2,
+    q_tfb = tfb::<_, 288> => 2,
+    q_pfb = pfb::<_, 288> => 2,
     q_sdes = sdes::<_, 16> => 2,
-    q_unknown = unknown::<_, 64> => 2,
+    q_unknown = unknown::<_, 288> => 2,
     q_generic = generic::<_, 64, false> => 2,
     q_generic_sdes = generic::<_, 16, true> => 2,
-    t_app = app::<_, 256> => 2,
-    t_bye = bye::<_, 256> => 2,
-    t_rr = rr::<_, 256> => 2,
-    t_sr = sr::<_, 256> => 2,
-    t_tfb = tfb::<_, 256> => 2,
-    t_pfb = pfb::<_, 256> => 2,
+    t_app = app::<_, 600> => 2,
+    t_bye = bye::<_, 600> => 2,
+    t_rr = rr::<_, 600> => 2,
+    t_sr = sr::<_, 600> => 2,
+    t_tfb = tfb::<_, 600> => 2,
+    t_pfb = pfb::<_, 600> => 2,
     t_sdes = sdes::<_, 24> => 2,
-    t_unknown = unknown::<_, 256> => 2,
-    t_generic = generic::<_, 256, false> => 2,
+    t_unknown = unknown::<_, 600> => 2,
+    t_generic = generic::<_, 288, false> => 2,
     t_generic_sdes = generic::<_, 24, true> => 2,
 }
